@@ -39,7 +39,7 @@ def run(ctx, rep):
     fuel(ctx, rep)
     struct_pair(ctx, rep, "insim::insim::contact::ConInfo")
     rep.floor("R1.3b", 20)
-    rep.floor("R1.3c", 30)
+    rep.floor("R1.3c", 24)
 
 
 def variant_of(b):
